@@ -88,6 +88,27 @@ def direct_producer(body, site):
     return None
 
 
+def _operand_names(body, op, bb):
+    """what an operand is computed from: the fields and parameters it depends on (sorted), `k` for a constant"""
+    if F.op_const(op) is not None:
+        return "k"
+    try:
+        o = dep.origins(body, op, at=(bb, len(body.stmts(bb))))
+    except Exception:
+        return "?"
+    names = set()
+    for a in o:
+        if a[0] == "field" and not str(a[2]).isdigit():
+            names.add(str(a[2]))
+        elif a[0] == "param" and len(a) > 2 and a[2] and not (len(a) > 3 and a[3]):
+            names.add(str(a[2]))
+        elif a[0] == "call" and a[1]:
+            nm = a[1].rsplit("::", 1)[-1]
+            if not nm.startswith("{"):
+                names.add(nm + "()")
+    return ",".join(sorted(names)[:4]) or "k"
+
+
 def _short_producer(prod):
     if not prod:
         return "?"
@@ -147,9 +168,13 @@ def enumerate_sites(prog, body, contract_fns=()):
             out.append(Site(body, bb, "api", "%s on %s" % (decl.rsplit("::", 1)[-1], _short_ty(_ty_of_arg0(body, t))), F.call_loc(t), t, list(args)))
         elif ck in contract_fns:
             out.append(Site(body, bb, "contract", contract_fns[ck], F.call_loc(t), t, list(args)))
-    # stable keys: function key + kind + descriptor, numbered in block order within the function
+    # stable keys: function key + kind + descriptor (for arithmetic: what the two operands are computed from), numbered
+    # in block order among sites with the same descriptor only - so an unrelated operation added or moved elsewhere in
+    # the function does not renumber a reviewed site
     seen = {}
     for s in out:
+        if s.kind == "assert" and getattr(s, "operands", None):
+            s.desc += "(" + ";".join(_operand_names(body, op, s.bb) for op in s.operands) + ")"
         base = "P-PANIC:%s:%s:%s" % (body.key, s.kind, s.desc)
         n = seen.get(base, 0)
         seen[base] = n + 1
